@@ -90,7 +90,124 @@ print("HOLDS", out)
 '''
 
 
+HIST = r"""
+import itertools
+COUNTER = itertools.count()
+class World:
+    '''two scratch namespaces A and B compiled with one set of options; a name -> value model'''
+    def __init__(self, opts):
+        n = next(COUNTER)
+        self.opts = opts
+        self.A, self.B = f"verif.c10.a{n}", f"verif.c10.b{n}"
+        _get_ns(self.A); _get_ns(self.B)
+        self.model = {}          # (ns, name) -> value
+        self.ev(self.A, "(def x 0) (def y 0) (def ^:dynamic *d* 0) (def ^:redef r 0) (def ^:private hidden 41)")
+        for k in ("x", "y", "*d*", "r"):
+            self.model[(self.A, k)] = 0
+        self.ev(self.B, f"(require (quote [{self.A} :as al :refer [y]]))")
+    def ev(self, ns, src):
+        return lisp_eval(src, ns, self.opts)
+    def step(self, op, v):
+        A = self.A
+        if op == 0:
+            self.ev(A, f"(def x {v})"); self.model[(A, "x")] = v
+        elif op == 1:
+            self.ev(A, f"(def y {v})"); self.model[(A, "y")] = v
+        elif op == 2:
+            self.ev(A, f"(def ^:redef r {v})"); self.model[(A, "r")] = v
+        elif op == 3:   # root mutation of a ^:redef Var is visible everywhere
+            self.ev(self.B, f"(alter-var-root (var al/r) (constantly {v}))"); self.model[(A, "r")] = v
+        elif op == 4:   # root mutation of a ^:dynamic Var
+            self.ev(A, f"(alter-var-root (var *d*) (constantly {v}))"); self.model[(A, "*d*")] = v
+        elif op == 5:   # a function defined *before* the redefinition must see the new value of a redef/dynamic Var
+            self.ev(A, "(def reader-of-r (fn [] r)) (def reader-of-d (fn [] *d*))")
+            self.ev(A, f"(def ^:redef r {v}) (alter-var-root (var *d*) (constantly {v}))")
+            self.model[(A, "r")] = v; self.model[(A, "*d*")] = v
+            got = [self.ev(A, "(reader-of-r)"), self.ev(A, "(reader-of-d)")]
+            if got != [v, v]:
+                return ("stale-read-through-closure", got, v)
+        return self.check()
+    def check(self):
+        A, B = self.A, self.B
+        m = self.model
+        reads = {
+            "bare-in-A": (A, "[x y r *d*]", [m[(A, "x")], m[(A, "y")], m[(A, "r")], m[(A, "*d*")]]),
+            "qualified-from-B": (B, f"[{A}/x {A}/y {A}/r {A}/*d*]", [m[(A, "x")], m[(A, "y")], m[(A, "r")], m[(A, "*d*")]]),
+            "alias-from-B": (B, "[al/x al/y al/r al/*d*]", [m[(A, "x")], m[(A, "y")], m[(A, "r")], m[(A, "*d*")]]),
+            "referred-in-B": (B, "y", m[(A, "y")]),
+            "var-deref": (B, "[(deref (var al/x)) (var-get (var al/r))]", [m[(A, "x")], m[(A, "r")]]),
+            "local-shadows-var": (A, "(let [x :local] x)", kw.keyword("local")),
+            "binding-visible": (A, "(binding [*d* :bound] *d*)", kw.keyword("bound")),
+        }
+        for name, (ns, src, want) in reads.items():
+            got = self.ev(ns, src)
+            got = list(got) if isinstance(got, vec.PersistentVector) else got
+            if got != want:
+                return (name, got, want)
+        try:
+            self.ev(B, "al/hidden")
+            return ("private-var-reachable",)
+        except Exception:
+            pass
+        return True
+def DIAG(**k):
+    return k
+"""
+
+
+HIST_RUN = r"""
+if __name__ == "__main__":
+    import itertools as _it
+    modes = {"direct-linking": {"use-var-indirection": False}, "var-indirection": {"use-var-indirection": True}, "no-inlining": {"inline-functions": False}}
+    bad = []
+    n = 0
+    for tag, opts in modes.items():
+        for o0, v0, o1, v1 in _it.product(range(6), (1, 2), range(6), (3, 4)):
+            n += 1
+            w = World(opts)
+            r = w.check()
+            for op, v in ((o0, v0), (o1, v1)):
+                if r is True:
+                    r = w.step(op, v)
+            if r is not True:
+                bad.append((tag, (o0, v0, o1, v1), r))
+    for o0, v0, o1, v1 in _it.product(range(3), (1, 2), range(3), (3, 4)):
+        a, b = World(modes["direct-linking"]), World(modes["var-indirection"])
+        for op, v in ((o0, v0), (o1, v1)):
+            a.step(op, v); b.step(op, v)
+        if list(a.ev(a.A, "[x y r]")) != list(b.ev(b.A, "[x y r]")):
+            bad.append(("linking-modes-disagree", (o0, v0, o1, v1)))
+    if bad:
+        print("REPRODUCED:", len(bad), "of", n, "histories read a wrong value, e.g.", [tuple(map(repr, x)) for x in bad[:3]]); sys.exit(1)
+    print("HOLDS", n, "histories")
+"""
+
+
 def run(rep, tier, seed):
+    only0 = getattr(rep, "only", None)
+    if only0 is None or "histories" in only0:
+        import time as _t
+        from ..chx.lisp import PRELUDE
+        rep.encoded("src/basilisp/lang/compiler/analyzer.py", ["_resolve_sym", "__resolve_namespaced_symbol"], "executed when each step's forms are compiled")
+        rep.encoded("src/basilisp/lang/compiler/generator.py", ["_var_sym_to_py_ast", "_def_to_py_ast"], "their output is executed")
+        t0 = _t.time()
+        path = env.write_replay(rep.prop, "histories", PRELUDE + HIST + HIST_RUN)
+        ok, line = env.replay_reproduces(path, timeout=900)
+        r_ = Result("histories/def-alias-refer-alter-var-root (exhaustive concrete run)", INCONCLUSIVE, engine="concrete enumeration (not solver-decided)",
+                    secs=_t.time() - t0,
+                    bound="all 144 two-step histories of def x / def y / def ^:redef r / alter-var-root (redef, dynamic) / redefine-behind-a-closure x 3 option sets; "
+                          "after each step every spelling is read: bare, fully qualified, alias, refer, var, shadowing local, thread binding; private Var unreachable; "
+                          "def-only histories agree between direct linking and var indirection")
+        if ok:
+            r_.verdict, r_.replay, r_.detail = REFUTED, path, line[:400]
+            rep.classify_refutation(r_, {"kind": "history"}, line[:200])
+        elif "holds" in line:
+            r_.verdict, r_.detail = PROVED, line[:100]
+        else:
+            r_.detail = line[:400]
+        rep.add(r_)
+        if only0 is not None:
+            return
     rep.encoded(UTIL, ["munge", "_MUNGE_REPLACEMENTS"], "PySym on the real munge AST with position-flattened symbolic strings (table read from source)")
     table = table_chars()
     quick = tier == "quick"
@@ -142,7 +259,7 @@ def run(rep, tier, seed):
     rep.extra["collision_classes"] = classes
     rep.bounds = {"names": f"|a| <= {cap_a}(+1), |b| up to |a|-1+len(replacement), every code point a symbol may contain"}
     rep.outside = ["longer names", "collisions that need two different table characters at once (overlapping replacements)",
-                   "def/alias/refer histories under both linking modes"]
+                   "histories longer than 2 steps; in-ns switching inside one history"]
     rep.assumptions += ["keyword.kwlist and builtins.__dict__ as of this interpreter", "characters the reader rejects in symbols are excluded"]
     rep.trusted += ["z3 5.1.0 (LIA)", "vlib/pysym + flatstr"]
     rep.extra["explanation"] = ("one query per collision class (each table character, the reserved-word suffix, '..') -- each is a recorded finding "
